@@ -35,6 +35,9 @@ class Machinery(Exception):
 _TR = bytes(((b % 255) + 1) for b in range(256))
 
 
+U8SHA1 = b"payload-137800"      # sha1 = 4f3039d68a2b155223c59107cd90647b3d6d7d30: '0', '9', U+058A, '+', ... all well-formed UTF-8
+
+
 def content(key, size, gen=0, seed=None, mode="rand"):
     """Deterministic file content.  mode "rand": bytes 1..255, unique per key (default);
     "zeros": all zero bytes; "repeat": one 16 KiB block repeated; "sparse": random with long runs of
@@ -46,6 +49,8 @@ def content(key, size, gen=0, seed=None, mode="rand"):
     s = SEED if seed is None else seed
     if mode == "zeros":
         return bytes(size)
+    if mode == "u8sha1":           # 14 bytes whose SHA-1 digest is, read as text, valid UTF-8 (a decoder that hands back
+        return U8SHA1[:size]       # text for such byte strings must not confuse whoever compares digests)
     if mode == "xl":               # the default content of this key with every byte changed (still 1..255)
         table = bytes(((x - 1 + 97) % 255) + 1 if x else 7 for x in range(256))
         return content(key, size, gen, seed, "rand").translate(table)
